@@ -13,7 +13,7 @@ LEVEL = 'model_checking'
 RULE = ('programs = every body tree with <= N operators over the 8 leaves in the context of C05 (callee with a later '
         'clause, caller with alternatives, a dynamic fact) and the meta-call programs of C09 over o/1, m/1, r/2; for '
         'each program EVERY non-empty subset of the fact predicates it uses (z/0 o/1 m/1 k/1, r/2) is re-implemented as a '
-        'registered Python generator function x registration style {inferred, explicit, explicit with a generic *args function, variadic arity; inferred also for a bound method and for a functools.wraps-decorated function} x yielded '
+        'registered Python generator function x registration style {inferred, explicit, explicit with a generic *args function, variadic arity; inferred also for a bound method, for a functools.wraps-decorated function and for a function that returns a cursor object (an iterator with close(), also kept in a registry) instead of a generator} x yielded '
         'value {False, True} [x a dynamic fact next to the Python predicate] [x on a fresh engine / on an engine that was queried before and had an earlier version of the predicates registered]; answers compared with RefProlog run on '
         'the all-Prolog program. For every program/subset additionally one run per event j (entry or resumption of a '
         'Python predicate) in which the predicate raises a fresh exception object - of each of 7 classes (a custom one, TypeError, ValueError, RuntimeError, KeyError, AttributeError, AssertionError), through an inferred-arity and through a variadic registration - at its j-th event: the consumer must '
@@ -39,6 +39,9 @@ SOLS = {('z', 0): [], ('y0', 0): [()], ('o', 1): [(C(1),)], ('m', 1): [(C(1),), 
 PROLOG = {('z', 0): [], ('y0', 0): [(A('y0'), TRUE)], ('o', 1): [(F('o', C(1)), TRUE)], ('m', 1): [(F('m', C(1)), TRUE), (F('m', C(2)), TRUE)],
           ('k', 1): [(F('k', C(1)), CUT), (F('k', C(2)), TRUE)],
           ('r', 2): [(F('r', C(1), A('a')), TRUE), (F('r', C(2), A('b')), TRUE), (F('r', C(2), A('c')), TRUE)]}
+
+
+OPEN_CURSORS = []
 
 
 def make_py(yp, key, style, yv, events):
@@ -88,6 +91,41 @@ def make_py(yp, key, style, yv, events):
     else:
         def pred(arg1, arg2):
             return body((arg1, arg2))
+    if style == 'inferred-cursor':
+        # the function does not return a generator but a cursor OBJECT (an iterator with a close()
+        # method) that the application also keeps in a registry of open cursors
+        inner = pred
+
+        class Cursor:
+            def __init__(self, it):
+                self.it = it
+                self.closed = False
+
+            def __iter__(self):
+                return self
+
+            def __next__(self):
+                return next(self.it)
+
+            def close(self):
+                self.closed = True
+                self.it.close()
+        if n == 0:
+            def cpred():
+                c = Cursor(inner())
+                OPEN_CURSORS.append(c)
+                return c
+        elif n == 1:
+            def cpred(arg1):
+                c = Cursor(inner(arg1))
+                OPEN_CURSORS.append(c)
+                return c
+        else:
+            def cpred(arg1, arg2):
+                c = Cursor(inner(arg1, arg2))
+                OPEN_CURSORS.append(c)
+                return c
+        return cpred, None
     if style == 'inferred-method':
         # a bound method: the function object behind it has one more parameter (self)
         class Holder:
@@ -219,9 +257,10 @@ def check_program(acc, index, clauses, goal, dyn_extra, label):
         exp = [anonymize(a, anon_ix) for a in exp]
     subsets = [s for r in range(1, len(used) + 1) for s in itertools.combinations(used, r)]
     for sub in subsets:
-        for style in ('inferred', 'explicit', 'explicit-generic', 'variadic', 'inferred-method', 'inferred-decorated'):
+        for style in ('inferred', 'explicit', 'explicit-generic', 'variadic', 'inferred-method', 'inferred-decorated', 'inferred-cursor'):
             for yv in (False, True):
-                if style in ('inferred-method', 'inferred-decorated') and yv is False:
+                del OPEN_CURSORS[:]
+                if style in ('inferred-method', 'inferred-decorated', 'inferred-cursor') and yv is False:
                     continue
                 acc.n['evaluations'] += 1
                 acc.n['validated'] += 1
